@@ -414,4 +414,27 @@ theorem pyhashList_respects (hf : String → Option (List String)) (H : PyHasher
 end
 
 
+
+/-- the identity-keyed table is the content-keyed one when, on the vocabulary, "same term object as the probe" and
+    "equal term content" coincide -/
+theorem lastIdxById_eq (t : TagObj) (vocab : List TagObj)
+    (h : ∀ x ∈ vocab, (x.term.id = t.term.id ↔ x.term.val = t.term.val)) :
+    lastIdxById t.term.id t.value vocab = lastIdx t.content (vocab.map TagObj.content) := by
+  induction vocab with
+  | nil => rfl
+  | cons x xs ih =>
+    have ih' := ih (fun y hy => h y (List.mem_cons_of_mem _ hy))
+    have hx := h x List.mem_cons_self
+    simp only [lastIdxById, List.map_cons, lastIdx, ih']
+    cases lastIdx t.content (xs.map TagObj.content) with
+    | some j => rfl
+    | none =>
+      have : (x.term.id = t.term.id ∧ x.value = t.value) ↔ x.content = t.content := by
+        rw [hx]
+        cases x with | mk xt xv => cases t with | mk tt tv => simp [TagObj.content]
+      by_cases hc : x.content = t.content
+      · simp [hc, this.mpr hc]
+      · have hn : ¬ (x.term.id = t.term.id ∧ x.value = t.value) := fun h => hc (this.mp h)
+        simp [hc, hn]
+
 end SE.Proofs.Lemmas.Encoding
